@@ -191,7 +191,8 @@ pub mod probe {
     pub const HIGH_STACK: usize = 25;
     pub const OUT_ASTRAL: usize = 26;
     pub const BIG_VALUE: usize = 27;
-    pub const N: usize = 28;
+    pub const FWD_JUMP: usize = 28;
+    pub const N: usize = 29;
     pub const NAMES: [&str; N] = [
         "jump_taken",
         "heart_return_taken",
@@ -221,6 +222,7 @@ pub mod probe {
         "stack_above_3_used",
         "out_astral_char",
         "value_over_64_bits",
+        "forward_jump_taken",
     ];
 }
 
@@ -486,6 +488,9 @@ impl Machine {
             match self.labels.get(&(count, leaf)) {
                 Some(&t) if t != pc => {
                     self.probes[probe::JUMP] += 1;
+                    if t > pc {
+                        self.probes[probe::FWD_JUMP] += 1;
+                    }
                     self.last = Some(pc);
                     next = t;
                 }
